@@ -50,13 +50,19 @@ Definition spec_names (prefixes : list str) (accept_unprefixed : bool) (idents_a
   | _ => Some (map (fun i => lower (join [95] (skipn (length shared) (words i)))) idents_public)
   end.
 
-(* widths of the fixed-width unsigned types, from the documentation *)
-Definition unsigned_width (fund : str) : option Z :=
-  if str_eqb fund [103;117;105;110;116;56] then Some 8%Z            (* guint8 *)
-  else if str_eqb fund [103;117;105;110;116;49;54] then Some 16%Z    (* guint16 *)
-  else if str_eqb fund [103;117;105;110;116;51;50] then Some 32%Z    (* guint32 *)
-  else if str_eqb fund [103;117;105;110;116;54;52] then Some 64%Z    (* guint64 *)
-  else None.
+(* widths of the unsigned types whose width GLib fixes on every platform, from the documentation
+   (guint8/16/32/64 by name; guint is 32 bits wherever GLib runs, gushort 16, gunichar is a guint32);
+   gulong, gsize and guintptr depend on the platform and have no entry *)
+Definition unsigned_widths : list (str * Z) :=
+  [([103;117;105;110;116;56], 8%Z); ([103;117;105;110;116;49;54], 16%Z); ([103;117;105;110;116;51;50], 32%Z);
+   ([103;117;105;110;116;54;52], 64%Z); ([103;117;105;110;116], 32%Z); ([103;117;115;104;111;114;116], 16%Z);
+   ([103;117;110;105;99;104;97;114], 32%Z)].
+Fixpoint width_lookup (fund : str) (tbl : list (str * Z)) : option Z :=
+  match tbl with
+  | [] => None
+  | (n, k) :: t => if str_eqb n fund then Some k else width_lookup fund t
+  end.
+Definition unsigned_width (fund : str) : option Z := width_lookup fund unsigned_widths.
 Definition spec_const_ok (fund : str) (declared emitted : Z) : bool :=
   match unsigned_width fund with
   | Some k => Z.leb 0 emitted && Z.ltb emitted (2 ^ k) && Z.eqb ((emitted - declared) mod 2 ^ k) 0
